@@ -1,9 +1,9 @@
 SPECIFICATION Spec
 CONSTANTS
-  InvDom <- C05_Inv4
-  LinkDom <- C05_Link4
-  MaxLen = 4
-  NowDom = {1}
+  InvDom <- C05_Inv3r
+  LinkDom <- C05_Link3r
+  MaxLen = 2
+  NowDom = {1, 3, 5}
   ArgPoints = {0, 1, 2}
   Conforming = TRUE
   Deviations = @Deviations@
